@@ -418,6 +418,102 @@ def fam_str(tier):
                    D("a", "str", S(final)), props[::-1], [])
 
 
+def RF(path, sl=None):
+    return {"src": None, "path": path, "slice": sl}
+
+
+def fam_options_by_ref(tier):
+    """option lists given BY REFERENCE (`!options {?allowed}`, `= {?one}`): the options are the referenced node's
+    current values in the unit the line states, else in the referenced node's unit (root / chained placement only)"""
+    def arr(typ, vals, unit, name="allowed"):
+        return D(name, typ, list(vals), unit, [[len(vals), len(vals)]])
+    cases = []   # (tag, type, preceding statements, node unit, property lines, accepted finals, rejected finals)
+    for typ in ("float", "int"):
+        A3 = ["1", "2", "3"]
+        m = arr(typ, A3, "m")
+        plain = arr(typ, A3, None)
+        cm = arr(typ, ["100", "200", "300"], "cm")
+        four = arr(typ, ["1", "2", "3", "4"], "m")
+        cases += [
+            ("src-m-node-cm", typ, [m], "cm", [dict(k="opts", ind=2, ref=RF("allowed"), unit=None)],
+             [("200", None), ("3", "m"), ("100", "cm")], [("2", None), ("250", None), ("4", "m"), ("3", None)]),
+            ("src-m-node-m", typ, [m], "m", [dict(k="opts", ind=2, ref=RF("allowed"), unit=None)],
+             [("2", None), ("300", "cm")], [("4", None), ("200", None), ("20", "cm")]),
+            ("src-cm-node-m", typ, [cm], "m", [dict(k="opts", ind=2, ref=RF("allowed"), unit=None)],
+             [("2", None), ("300", "cm")], [("200", None), ("4", None)]),
+            ("src-plain-node-cm", typ, [plain], "cm", [dict(k="opts", ind=2, ref=RF("allowed"), unit=None)],
+             [("2", None), ("3", "cm")], [("200", None), ("4", None), ("2", "m")]),
+            ("src-plain-node-plain", typ, [plain], None, [dict(k="opts", ind=2, ref=RF("allowed"), unit=None)],
+             [("2", None)], [("4", None), ("200", None)]),
+            ("src-m-stated-cm", typ, [m], "cm", [dict(k="opts", ind=2, ref=RF("allowed"), unit="cm")],
+             [("2", None), ("3", "cm")], [("200", None), ("2", "m")]),
+            ("src-plain-stated-m", typ, [plain], "cm", [dict(k="opts", ind=2, ref=RF("allowed"), unit="m")],
+             [("200", None), ("3", "m")], [("2", None), ("400", None)]),
+            ("sliced", typ, [four], "cm", [dict(k="opts", ind=2, ref=RF("allowed", [[1, 3]]), unit=None)],
+             [("200", None), ("3", "m")], [("100", None), ("4", "m"), ("2", None)]),
+            ("source-modified-before", typ, [m, M("allowed", ["4", "5", "6"])], "cm",
+             [dict(k="opts", ind=2, ref=RF("allowed"), unit=None)],
+             [("500", None), ("6", "m")], [("200", None), ("5", None)]),
+        ] + ([] if typ == "int" else [
+            # not generated for int: an int array modified in another unit holds converted (float) numbers whose raw
+            # form `4.0` cannot be cast to an int option (observed; integer conversion results belong to C14)
+            ("source-modified-other-unit", typ, [m, M("allowed", ["400", "500", "600"], "cm")], "cm",
+             [dict(k="opts", ind=2, ref=RF("allowed"), unit=None)],
+             [("500", None), ("6", "m")], [("200", None), ("5", None)]),
+        ]) + [
+            ("two-lists", typ, [m], "cm", [dict(k="opts", ind=2, ref=RF("allowed"), unit=None), OPTS(["5"], "m")],
+             [("200", None), ("500", None), ("5", "m")], [("2", None), ("5", None), ("400", None)]),
+            ("per-line-ref", typ, [D("one", typ, "2", "m")], "cm",
+             [OPT({"ref": RF("one")}), OPT("3", "m")], [("200", None), ("3", "m")], [("2", None), ("100", None)]),
+            ("per-line-ref-stated-unit", typ, [D("one", typ, "2", "m")], "cm",
+             [OPT({"ref": RF("one")}, "cm"), OPT("3", "m")], [("2", None), ("300", None)], [("200", None)]),
+        ]
+    sa = D("allowed", "str", [S("ab"), S("cd"), S("007")], None, [[3, 3]])
+    cases += [("str-list", "str", [sa], None, [dict(k="opts", ind=2, ref=RF("allowed"), unit=None)],
+               [(S("cd"), None), (S("007"), None)], [(S("xy"), None), (S("7"), None), (S("abcd"), None)]),
+              ("str-sliced", "str", [sa], None, [dict(k="opts", ind=2, ref=RF("allowed", [[None, 2]]), unit=None)],
+               [(S("ab"), None)], [(S("007"), None)]),
+              ("str-per-line-ref", "str", [D("one", "str", S("cd"))], None, [OPT({"ref": RF("one")}), OPT(S("ef"))],
+               [(S("cd"), None), (S("ef"), None)], [(S("ab"), None)])]
+    for tag, typ, pre, unit, props, good, bad in cases:
+        v_ok = good[0][0] if good[0][1] is None else None
+        for ftag, (ftxt, funit) in [("on", f) for f in good] + [("off", f) for f in bad]:
+            base = ["type=" + typ, "unit=" + str(unit), "kind=options", "options-by-reference=" + tag,
+                    "final=" + ftag, "root-only"]
+            if funit is None or funit == unit:
+                yield base + ["path=def"], pre + [D("a", typ, ftxt, unit)], props, []
+            if v_ok is not None:
+                yield base + ["path=mod1"], pre + [D("a", typ, v_ok, unit)], props, [M("a", ftxt, funit)]
+                yield (base + ["path=mod2"], pre + [D("a", typ, v_ok, unit)], props,
+                       [M("a", v_ok), M("a", ftxt, funit)])
+            yield base + ["path=decl"], pre + [D("a", typ, None, unit)], props, [M("a", ftxt, funit)]
+
+
+NUMLIKE = [("007", "7"), ("1.10", "1.1"), ("1e3", "1000"), ("-0", "0"), ("1_0", "10"), ("nan", "NaN"),
+           ("inf", "Infinity"), ("+5", "5"), (".5", "0.5"), ("0x10", "16")]
+
+
+def fam_str_numeric(tier):
+    """string nodes whose text looks like a number: == / != / options compare TEXT (007 is not 7, 1.10 is not 1.1,
+    nan equals nan); literals are always quoted"""
+    for x, y in NUMLIKE:
+        conds = [("eq-x", ["cmp", "==", SELF, ["str", x]]), ("x-eq", ["cmp", "==", ["str", x], SELF]),
+                 ("ne-x", ["cmp", "!=", SELF, ["str", x]]), ("eq-y", ["cmp", "==", SELF, ["str", y]]),
+                 ("ne-y", ["cmp", "!=", ["str", y], SELF]),
+                 ("eq-x-or-eq-other", ["or", ["cmp", "==", SELF, ["str", x]], ["cmp", "==", SELF, ["str", "zz"]]]),
+                 ("ne-x-and-ne-y", ["and", ["cmp", "!=", SELF, ["str", x]], ["cmp", "!=", SELF, ["str", y]]])]
+        props_sets = [("condition", "cond=" + c, [COND(e)]) for c, e in conds]
+        props_sets += [("options", "form=per-line", [OPT(S(x)), OPT(S("zz"))]),
+                       ("options", "form=list", [OPTS([S(x), S("zz")])]),
+                       ("options", "form=list-y", [OPTS([S(y)])])]
+        for (kind, ptag, props), final in itertools.product(props_sets, (x, y, "zz")):
+            base = ["type=str", "kind=" + kind, ptag, "numeric-looking=" + x, "final=" + final]
+            yield base + ["path=def"], D("a", "str", S(final)), props, []
+            if kind == "options" or tier == "thorough":
+                yield base + ["path=mod1"], D("a", "str", S(x)), props, [M("a", S(final))]
+            yield base + ["path=decl"], D("a", "str", None), props, [M("a", S(final))]
+
+
 def _mixed_forms(atoms3, atoms4=None):
     """unparenthesised mixes of || and &&; && binds tighter (documented priorities 3 and 4)"""
     a, b, c = atoms3
@@ -633,12 +729,13 @@ def fam_dims_missing(tier):
                [row, D("a", typ, {"ref": {"src": None, "path": "row", "slice": [[1, 3]]}}, None, [[2, 2]])], [], [])
 
 
-FAMILIES = dict(mixed_logic=fam_mixed_logic, magnitude=fam_magnitude, int_options_nonintegral=fam_int_options_nonintegral,
+FAMILIES = dict(options_by_ref=fam_options_by_ref, str_numeric=fam_str_numeric, mixed_logic=fam_mixed_logic, magnitude=fam_magnitude, int_options_nonintegral=fam_int_options_nonintegral,
                 dims_missing=fam_dims_missing,
                 num_options=fam_num_options, num_condition=fam_num_condition, num_pairs=fam_num_pairs,
                 str=fam_str, bool=fam_bool, declared=fam_declared, dims=fam_dims)
 # families in which both verdicts must occur (vacuity guard)
-BOTH = ["num_options", "num_condition", "num_pairs", "str", "bool", "declared", "dims", "dims_missing", "magnitude", "mixed_logic"]
+BOTH = ["num_options", "num_condition", "num_pairs", "str", "bool", "declared", "dims", "dims_missing", "magnitude", "mixed_logic",
+        "options_by_ref", "str_numeric"]
 
 
 # ------------------------------------------------------------------------------------------------ judging
@@ -739,7 +836,7 @@ def run_shard(desc):
     seen = set()
     try:
         for tags, d, props, mods in FAMILIES[fam](tier):
-            if "root-only" in tags and pl != "root":
+            if "root-only" in tags and pl not in ("root", "chained"):
                 continue
             prog = place(d, props, mods, pl)
             key = G.render(prog)
